@@ -286,7 +286,7 @@ class CodeGenerator(nunavut._generators.AbstractGenerator):
     ) -> None:
         newline_pattern = re.compile(r"\n|\r\n", flags=re.MULTILINE)
         line_buffer = io.StringIO()
-        for part in template_gen:
+        for part in _hold_back_split_crlf(template_gen):
             search_pos = 0  # type: int
             match_obj = newline_pattern.search(part, search_pos)
             while True:
@@ -1004,3 +1004,22 @@ class SupportGenerator(CodeGenerator):
                         resource_line_tuple = line_pp(resource_line_tuple)
                     target_file.write(resource_line_tuple[0])
                     target_file.write(resource_line_tuple[1])
+
+
+def _hold_back_split_crlf(parts: typing.Iterable[str]) -> typing.Generator[str, None, None]:
+    """
+    A carriage return at the end of a chunk may be the first half of a "\\r\\n" that the template engine split across
+    two chunks. Hold it back until the next chunk shows what follows so line post-processors always see whole
+    line terminators no matter how the generated text was chunked.
+    """
+    pending_cr = False
+    for part in parts:
+        if pending_cr:
+            part = "\r" + part
+            pending_cr = False
+        if part.endswith("\r"):
+            part = part[:-1]
+            pending_cr = True
+        yield part
+    if pending_cr:
+        yield "\r"
